@@ -250,6 +250,8 @@ def input_direction(ctx, res):
         except Exception:
             return out, 0, 0
         mode = i % 3
+        if mode != 1 and len(text_v.encode("utf-8", "surrogatepass")) > 100_000:
+            mode = 1   # a single argument is limited to 128 KiB by the kernel: large documents go through stdin
         if mode == 0:
             rr_ = common.run_cli(["output x = inputs.x", "-i", '{"x":' + text_v + "}"])
         elif mode == 1:
